@@ -319,6 +319,57 @@ func exec(line string) hx.Result {
 		see(g)
 		graph.SplitEdge(g, c.arg(4), c.arg(5))
 		see(g)
+	case "viewedit":
+		// views are live: built once over an editable base, then observed (with the base) before
+		// and after every edit of the base.  Tokens with ':' are edits, the others edges.
+		var es, ops []string
+		for _, t := range c.toks {
+			if strings.Contains(t, ":") {
+				ops = append(ops, t)
+			} else {
+				es = append(es, t)
+			}
+		}
+		base := build(c.args[0], c.arg(1), edgesOf(es)).(graph.EditableGraph)
+		V := commaInts(c.args[2])
+		cp := func() []int { return append([]int(nil), V...) }
+		views := []graph.Graph{
+			base,
+			graph.Complement(base),
+			graph.InducedSubgraph(base, cp()),
+			graph.Complement(graph.InducedSubgraph(base, cp())),
+			graph.InducedSubgraph(graph.Complement(base), cp()),
+		}
+		seeAll := func() {
+			for _, v := range views {
+				see(v)
+			}
+		}
+		seeAll()
+		for _, t := range ops {
+			p := strings.SplitN(t, ":", 2)
+			switch p[0] {
+			case "av":
+				base.AddVertex(commaInts(p[1]))
+			case "rv":
+				base.RemoveVertex(atoi(p[1]))
+			case "ae":
+				e := edgesOf([]string{p[1]})[0]
+				base.AddEdge(e[0], e[1])
+			case "re":
+				e := edgesOf([]string{p[1]})[0]
+				base.RemoveEdge(e[0], e[1])
+			case "sp":
+				e := edgesOf([]string{p[1]})[0]
+				graph.SplitEdge(base, e[0], e[1])
+			case "ct":
+				e := edgesOf([]string{p[1]})[0]
+				graph.Contract(base, e[0], e[1])
+			default:
+				panic("bad edit " + t)
+			}
+			seeAll()
+		}
 	case "prufer":
 		wfonly = true
 		see(graph.PruferDecode(intsOf(c.toks)))
@@ -740,6 +791,83 @@ func gen(g *hx.Gen) {
 	for k := 0; k < g.Pick(120, 3000); k++ {
 		n := r.Range(3, 9)
 		trans(n, randomEdges(r, n), false)
+	}
+
+	// ---- views over an edited base: Complement / InducedSubgraph views (and the two nestings) of
+	// a dense or sparse base are built once and observed, together with the base, before and after
+	// every edit of the base.  Documented domain of the induced view: "If a vertex in V is no
+	// longer in the graph, the behaviour is unspecified" -- so a vertex is removed (RemoveVertex,
+	// Contract) only when it lies above every entry of V: no vertex of V is removed or renumbered.
+	// Everything else (AddVertex, AddEdge, RemoveEdge, SplitEdge anywhere) is always in the domain.
+	viewedit := func(rep string, n int, es [][2]int, nops int) {
+		// V: a duplicate-free list in random order; half of the time confined to the low indices
+		lim := n
+		if r.Bool() && n > 0 {
+			lim = r.Range(0, (n+1)/2)
+		}
+		perm := r.Perm(n)
+		var V []int
+		maxV := -1
+		want := r.Intn(lim + 1)
+		for _, x := range perm {
+			if x < lim && len(V) < want {
+				V = append(V, x)
+				if x > maxV {
+					maxV = x
+				}
+			}
+		}
+		cur := n
+		var ops []string
+		for len(ops) < nops {
+			switch r.Intn(7) {
+			case 0, 1: // AddVertex with up to 3 distinct neighbours in random order
+				k := r.Intn(4)
+				if k > cur {
+					k = cur
+				}
+				ops = append(ops, "av:"+commaList(r.Perm(cur)[:k]))
+				cur++
+			case 2: // RemoveVertex above V
+				if maxV+1 <= cur-1 {
+					ops = append(ops, fmt.Sprintf("rv:%d", r.Range(maxV+1, cur-1)))
+					cur--
+				}
+			case 3:
+				if cur >= 1 {
+					ops = append(ops, fmt.Sprintf("ae:%d-%d", r.Intn(cur), r.Intn(cur)))
+				}
+			case 4:
+				if cur >= 1 {
+					ops = append(ops, fmt.Sprintf("re:%d-%d", r.Intn(cur), r.Intn(cur)))
+				}
+			case 5:
+				if cur >= 2 {
+					i := r.Intn(cur)
+					ops = append(ops, fmt.Sprintf("sp:%d-%d", i, (i+1+r.Intn(cur-1))%cur))
+					cur++
+				}
+			case 6: // Contract(i, j) removes j: j above V
+				if maxV+1 <= cur-1 {
+					ops = append(ops, fmt.Sprintf("ct:%d-%d", r.Intn(cur), r.Range(maxV+1, cur-1)))
+					cur--
+				}
+			}
+		}
+		emit("viewedit %s %d %s;%s %s", rep, n, commaList(V), edgeToks(es), strings.Join(ops, " "))
+	}
+	for n := 0; n <= 3; n++ {
+		for mask := 0; mask < 1<<uint(tri(n)); mask++ {
+			for _, rep := range reps[:2] {
+				for t := 0; t < 3; t++ {
+					viewedit(rep, n, graphOfMask(n, mask), 1+t)
+				}
+			}
+		}
+	}
+	for k := 0; k < g.Pick(250, 6000); k++ {
+		n := r.Range(1, 7)
+		viewedit(reps[k%2], n, randomEdges(r, n), r.Range(1, 6))
 	}
 
 	// ---- decoders: only well-formedness of the result is this property's business
